@@ -74,3 +74,23 @@ Example ex2_pipe_run :
   exists s tr, run ex2_pipe (init ex2_pipe) ex2_acts = Some (s, tr) /\
     puts tr = [yp 0 0; yp 1 1; yp 2 0] /\ fwds tr = [yp 1 1; yp 0 0; yp 2 0] /\ drops tr = [] /\ held ex2_pipe s = [].
 Proof. eexists. eexists. split; [vm_compute; reflexivity|]. vm_compute. repeat split. Qed.
+
+(* ---- fan-in: two rate-0 ports (flow 0 into the first, the other flows into the second) into one SP ------------- *)
+From ONL Require Import Elem.ComposePar Elem.ComposeHands Elem.AdaptTagged.
+
+Definition ex3_sel (p : pkt) : bool := Z.eqb (flow p) 0.
+Definition ex3_net : elem :=
+  fanin ex3_sel (port_elem ex2_port 0) (port_elem ex2_port 0) (sp_elem 1024 (fun f => f) [0%Z; 1%Z] [(0%Z, 1%Z); (1%Z, 2%Z)]).
+Definition ZA (a : paction) : iact (lab ex3_net) := IStep (inl (inl a)).
+Definition ZB (a : paction) : iact (lab ex3_net) := IStep (inl (inr a)).
+Definition ZS (a : saction) : iact (lab ex3_net) := IStep (inr a).
+Definition ex3_acts : list (iact (lab ex3_net)) :=
+  [ZA PInit; ZB PInit; ZS SInit; IPut (yp 0 0); IPut (yp 1 1); ZA PStoreCb; ZA Port.PGet; ZB PStoreCb; ZB Port.PGet;
+   ZS (SStoreCb None); ZS (SStoreCb (Some 0%Z)); ZS (SStoreCb (Some 1%Z)); ZS (SGetDone None); ZS (SGetDone (Some 1%Z));
+   ZS SChildInit; IAdv 1; ZS SChildTimer; ZS SChildEnd; ZS (SGetDone (Some 0%Z)); ZS SChildInit; IAdv 2; ZS SChildTimer; ZS SChildEnd].
+
+Example ex3_fanin_run :
+  exists s tr, run ex3_net (init ex3_net) ex3_acts = Some (s, tr) /\
+    puts tr = [yp 0 0; yp 1 1] /\ fwds tr = [yp 1 1; yp 0 0] /\ drops tr = [] /\
+    hands 1 tr = [yp 0 0; yp 1 1] /\ held ex3_net s = [] /\ urgent ex3_net s = false /\ deadline ex3_net s = None.
+Proof. eexists. eexists. split; [vm_compute; reflexivity|]. vm_compute. repeat split. Qed.
